@@ -113,3 +113,16 @@ Theorem C09_marked_pieces_are_near_a_file_end : forall ps p,
                                              file_size ps (sfile s) - Z.max max_edge 1 < soff s + slen s).
 Proof. exact marked_piece_is_near_an_end. Qed.
 Print Assumptions C09_marked_pieces_are_near_a_file_end.
+
+(* findGaps, completely: the gaps come in ascending order, do not overlap, consist of pieces available
+   for a web seed only, cover every such piece, and none is longer than the per-request limit *)
+Theorem C09_webseed_gaps_characterised : forall s,
+  gaps_sorted 0 (find_gaps s) /\
+  (forall g, In g (find_gaps s) -> 0 <= fst g /\ fst g < snd g /\ snd g <= npieces s /\ forall i, fst g <= i < snd g -> avail_ws s i = true) /\
+  (forall i, in_range (base s) i = true -> avail_ws s i = true -> exists g, In g (find_gaps s) /\ fst g <= i < snd g) /\
+  (1 <= maxws s -> forall g, In g (find_gaps s) -> snd g - fst g <= maxws s).
+Proof.
+  intros s. split; [apply find_gaps_sorted|]. split; [intros g Hg; exact (find_gaps_ok s g Hg)|].
+  split; [apply find_gaps_complete|]. intros Hm g Hg. apply find_gaps_bounded; assumption.
+Qed.
+Print Assumptions C09_webseed_gaps_characterised.
